@@ -19,6 +19,7 @@ import (
 	"github.com/btcsuite/btcd/blockchain"
 	"github.com/btcsuite/btcd/btcutil/v2"
 	"github.com/btcsuite/btcd/chainhash/v2"
+	"github.com/btcsuite/btcd/database"
 	"github.com/btcsuite/btcd/wire/v2"
 )
 
@@ -57,6 +58,11 @@ type Sim struct {
 	Dir    string
 	Status map[*refchain.Block]Status
 	Manual map[*refchain.Block]bool // manually invalidated
+	// dataAware: on a pruning node, Eligible counts a branch only if the store still has the block data that switching
+	// to it needs (see settleTip)
+	dataAware bool
+	// lastInvErr: the error text of the last InvalidateBlock call that returned one (context for tip violations)
+	lastInvErr string
 	// HdrAlso: blocks sitting in the orphan pool whose header has additionally entered the block index
 	HdrAlso map[*refchain.Block]bool
 	Tip     *refchain.Block // expected active tip
@@ -175,8 +181,39 @@ func (s *Sim) Eligible(b *refchain.Block) bool {
 		if s.Status[n] != SStored || n.Label != refchain.Valid || s.Manual[n] {
 			return false
 		}
+		// a pruning node cannot switch to a branch whose block data it has deleted: blocks off the current active
+		// chain count only while the store still has them
+		if s.dataAware && s.Cfg.Prune != 0 && s.N != nil && s.Tip != nil && n != s.Tip && !n.IsAncestorOf(s.Tip) && !s.storeHasBlock(n) {
+			return false
+		}
+	}
+	// ... and leaving the current chain needs the data of every block that is disconnected and of the block they are
+	// disconnected down to
+	if s.dataAware && s.Cfg.Prune != 0 && s.N != nil && s.Tip != nil && b != s.Tip && !s.Tip.IsAncestorOf(b) {
+		f := refchain.Fork(s.Tip, b)
+		for n := s.Tip; n != nil && n != f; n = n.Parent {
+			if s.Status[n] == SStored && !s.storeHasBlock(n) {
+				return false
+			}
+		}
+		if f != nil && f.Parent != nil && !s.storeHasBlock(f) {
+			return false
+		}
 	}
 	return true
+}
+
+func (s *Sim) storeHasBlock(b *refchain.Block) bool {
+	has := false
+	_ = s.N.DB.View(func(tx database.Tx) error {
+		h, err := tx.HasBlock(&b.Hash)
+		has = err == nil && h
+		return nil
+	})
+	if !has {
+		s.K.Count("tip.candidate_pruned_away", 1)
+	}
+	return has
 }
 
 // BestTips returns the eligible blocks of maximal cumulative work.
@@ -228,6 +265,23 @@ func isRuleErr(err error) bool {
 func (s *Sim) settleTip(what string) {
 	best := s.BestTips()
 	real := s.N.Chain.BestSnapshot()
+	if s.Cfg.Prune != 0 {
+		// A pruning node can only switch to a branch while it still has the block data the switch needs (the blocks
+		// to attach, the blocks to detach and the block they are detached down to). Whether it had them at the moment
+		// of the operation cannot be told afterwards (the operation itself may have pruned more), so on pruning nodes
+		// both answers are acceptable: the most-work chain among all valid stored blocks, and the most-work chain
+		// among those that are reachable with the data the store has now. Anything else is a violation.
+		s.dataAware = true
+		aware := s.BestTips()
+		s.dataAware = false
+		for _, c := range aware {
+			if c.Hash == real.Hash && !contains(best, c) {
+				best = aware
+				s.K.Count("tip.pruned_node_kept_reachable_chain", 1)
+				break
+			}
+		}
+	}
 	var want *refchain.Block
 	if contains(best, s.Tip) {
 		want = s.Tip
@@ -272,8 +326,12 @@ func (s *Sim) settleTip(what string) {
 		if rb != nil {
 			rn = rb.Name
 		}
-		s.Fail("tip:"+what, "after %s: active tip is %s (height %d), model says %s (height %d, work %d); best candidates %v",
-			what, rn, real.Height, want.Name, want.Height, workUnits(want), names(best))
+		extra := ""
+		if what == "InvalidateBlock" && s.lastInvErr != "" {
+			extra = "; InvalidateBlock returned: " + s.lastInvErr
+		}
+		s.Fail("tip:"+what, "after %s: active tip is %s (height %d), model says %s (height %d, work %d); best candidates %v%s",
+			what, rn, real.Height, want.Name, want.Height, workUnits(want), names(best), extra)
 	}
 }
 
@@ -541,6 +599,7 @@ func (s *Sim) DeliverHeader(b *refchain.Block) {
 // Invalidate calls InvalidateBlock.
 func (s *Sim) Invalidate(b *refchain.Block) {
 	s.op("inv(%s)", b.Name)
+	s.lastInvErr = ""
 	err := s.N.Chain.InvalidateBlock(&b.Hash)
 	s.K.Count("op.InvalidateBlock", 1)
 	if !s.InIndex(b) {
@@ -552,6 +611,7 @@ func (s *Sim) Invalidate(b *refchain.Block) {
 			// an error is reported when a candidate branch turns out to be invalid while reorganizing; the
 			// resulting state is what the property constrains, and it is checked below
 			s.K.Count("invalidate.returned_error", 1)
+			s.lastInvErr = err.Error()
 		}
 		s.Manual[b] = true
 		// InvalidateBlock marks the whole subtree at once: every index entry that descends from b is recorded as
